@@ -52,7 +52,7 @@ func genCase(bias string) func(t *rapid.T) Case {
 			return op
 		})
 		c.Ops = rapid.SliceOfN(genOp, 2, maxOps).Draw(t, "ops")
-		c.Sched = rapid.SliceOfN(rapid.Byte(), 0, ev.Pick(200, 600)).Draw(t, "sched")
+		c.Sched = sched.GenSchedule(t, ev.Pick(120, 400))
 		return c
 	}
 }
@@ -68,7 +68,7 @@ type acq struct {
 	err       error
 	release   func()
 	relIssued bool
-	wasBlock  bool  // observed blocked at a full quiescence point
+	wasBlock  bool   // observed blocked at a full quiescence point
 	barrier   []*acq // write waiters this read acquire must not overtake
 }
 
